@@ -27,9 +27,11 @@ func main() {
 	Main(map[string]PropFunc{"C01": run, "C07": run, "C08": run, "C10": run})
 }
 
+// The JSON names differ from those of harness/asacfg and harness/f1 on purpose: `./check Cxx --replay` hands a replay
+// file to every harness of the property, and a VPN case must be an empty case for the others (and vice versa).
 type cfgCase struct {
-	Dev  string   `json:"device"`
-	Spoc string   `json:"netspoc"`
+	Dev  string   `json:"vpn_device"`
+	Spoc string   `json:"vpn_netspoc"`
 	Note []string `json:"mutations"`
 	Name string   `json:"name,omitempty"`
 	dev  *vdev
@@ -54,6 +56,12 @@ func runDrc(dev, spoc string) (stdout, stderr string, status int, pan string) {
 // reasonOf classifies a refusal of the strict device (root cause class of a finding).
 func reasonOf(msg string) string {
 	switch {
+	case strings.Contains(msg, "outside 1..65535"):
+		return "sequence_number_out_of_range"
+	case strings.Contains(msg, "is occupied by"):
+		return "sequence_number_occupied_by_other_entry"
+	case strings.Contains(msg, "aaa-server definitions"):
+		return "aaa_server_touched"
 	case strings.Contains(msg, "typed in mode"):
 		return "toplevel_webvpn_typed_inside_attributes_mode"
 	case strings.Contains(msg, "last line of access-list"):
@@ -372,6 +380,23 @@ func run(ctx *Ctx) *Result {
 			return m
 		}
 		la := lean.check(c, out)
+		if prop == "C07" {
+			// aaa-server, ldap attribute-map and interface definitions are the administrator's: no command may define or remove them
+			for i, cmd := range cmds {
+				w := strings.Fields(cmd)
+				if w[0] == "no" || w[0] == "clear" {
+					w = w[1:]
+				}
+				if len(w) > 0 && w[0] == "configure" {
+					w = w[1:]
+				}
+				neg := strings.HasPrefix(cmd, "no ") || strings.HasPrefix(cmd, "clear ")
+				if len(w) > 0 && (w[0] == "aaa-server" || w[0] == "interface" || (neg && len(w) > 1 && w[0] == "ldap" && w[1] == "attribute-map")) {
+					res.Fail(sig("manually_maintained_object_touched"), fmt.Sprintf("command %d %q changes an object that must be left to the administrator\nscript:\n%s", i, cmd, out), c)
+					break
+				}
+			}
+		}
 		// execute
 		ex := &executor{d: c.dev.clone()}
 		var states []*vdev
@@ -518,7 +543,7 @@ func run(ctx *Ctx) *Result {
 	}
 	n := ctx.N(1500, 30000)
 	if prop == "C10" {
-		n = ctx.N(300, 5000)
+		n = ctx.N(200, 5000)
 	}
 	for i := 0; i < n; i++ {
 		g := &gen{r: ctx.Rng.Fork()}
